@@ -41,7 +41,9 @@ func coYield(L *LState) int {
 
 func coResume(L *LState) int {
 	th := L.CheckThread(1)
-	if L.G.CurrentThread == th {
+	// a thread that is running, or that has resumed another one and waits for it ("normal"),
+	// is not suspended: resuming it again would re-enter its frames
+	if L.G.CurrentThread == th || th.Parent != nil {
 		msg := "can not resume a running thread"
 		if th.wrapped {
 			L.RaiseError(msg)
